@@ -97,6 +97,12 @@ structure Larva (α : Type) where
   age : α
   weight : α
 
+/-- the end of the vertical movement: saithe (`clipEggs = false`) clips larvae to their band and lets eggs
+only stop at the surface (`Z[is_egg] = np.maximum(Z[is_egg], 0)`, since the `fix:` commit 8460773); the
+larvae module clips every particle -/
+def larvaFinalZ (c : LarvaCfg α) (isEgg : Bool) (z : α) : α :=
+  if isEgg && !c.clipEggs then fmax z 0.0 else clipDepth c.minDepth c.maxDepth z
+
 /-- `update_ibm` of the larvae / saithe IBM (vertical part).  `light0` is the surface light at the
 particle, `xi` its normal draw (none when `vertical_mixing == 0`).  `W` is a `float32` array in the
 code, hence the `narrow`s. -/
@@ -115,7 +121,7 @@ def larvaUpdate [HasNarrow α] (c : LarvaCfg α) (temp salt buoy light0 : α) (x
     | none => W
     | some r => narrow (W + r * sqrt (2.0 * c.D / c.dt))
   let z := p.z + narrow (W * narrow c.dt)
-  let z := if isEgg && !c.clipEggs then z else clipDepth c.minDepth c.maxDepth z
+  let z := larvaFinalZ c isEgg z
   ⟨z, age, weight⟩
 
 /-! ### sand eel, lunar eel: `reflexive` -/
